@@ -107,6 +107,13 @@ class Composition(object):
         """Enable the len() function."""
         return len(self.tracks)
 
+    def __eq__(self, other):
+        """Enable the '==' operator for compositions."""
+        return hasattr(other, "tracks") and self.tracks == other.tracks
+
+    def __ne__(self, other):
+        return not self == other
+
     def __repr__(self):
         """Return a string representing the class."""
         result = ""
